@@ -5,3 +5,8 @@ package file
 // verifMark is a crash-point marker used by the model-based verification harness (build tag
 // `verif`). Without the tag it is an empty, inlinable function.
 func verifMark(string, string, int) {}
+
+// verifFault is a fault-injection point of the verification harness (build tag `verif`): it is
+// consulted right before a file-system effect and its error is returned as if the effect had failed.
+// Without the tag it is an inlinable stub returning nil.
+func verifFault(string, string, int) error { return nil }
